@@ -69,10 +69,11 @@ C01_L(cfg, opts, lg) ==
 
 \* =========================== C02 ===========================================
 \* contribution of what is allocated to t in state s (resource states as of s)
+\* "nothing from an absent resource": absent by the absence lists, whatever state is shown
 C02_W(cfg, opts, s, w, t) ==
-  IF Skill(cfg, w, t) > 0 /\ s.ws[w] # "ABSENCE" THEN Skill(cfg, w, t) ELSE 0
+  IF Skill(cfg, w, t) > 0 /\ ~AbsentW(cfg, opts, s, w) THEN Skill(cfg, w, t) ELSE 0
 C02_F(cfg, opts, s, f, t) ==
-  IF FSkill(cfg, f, t) > 0 /\ s.fs[f] # "ABSENCE" THEN FSkill(cfg, f, t) ELSE 0
+  IF FSkill(cfg, f, t) > 0 /\ ~AbsentF(cfg, opts, s, f) THEN FSkill(cfg, f, t) ELSE 0
 C02_Contribution(cfg, opts, s, t) ==
   IF cfg.tasks[t].auto THEN cfg.tasks[t].rate
   ELSE IF cfg.tasks[t].needF
@@ -111,6 +112,15 @@ C02_L(cfg, opts, lg) ==
              \/ lg.ts[t][k + 1] = "WORKING"
              \/ (lg.ts[t][k + 1] = "READY" /\ Mem(lg.absL, k))
              \/ lg.ts[t][k + 1] = "FINISHED">>,
+     \* finished at the very next step after reaching zero, dependencies permitting: judged on the
+     \* logs (FF predecessors FINISHED at that next step; SF predecessors started one step earlier,
+     \* because a start within the next step comes after its finish check)
+     <<"C02.L.prompt", \A t \in NonExempt(cfg): \A k \in 1..(Len(lg.ts[t]) - 1):
+          /\ lg.rem[t][k] <= 0
+          /\ (lg.ts[t][k] = "WORKING" \/ (lg.ts[t][k] = "READY" /\ Mem(lg.absL, k - 1) /\ k > 1 /\ lg.ts[t][k - 1] = "WORKING"))
+          /\ (\A p \in Preds(cfg, t, "FF"): lg.ts[p][k + 1] = "FINISHED")
+          /\ (\A p \in Preds(cfg, t, "SF"): \E j \in 1..k: Started(lg.ts[p][j]))
+          => lg.ts[t][k + 1] = "FINISHED">>,
      <<"C02.L.first", \A t \in Tasks(cfg): Len(lg.rem[t]) > 0 =>
           \/ lg.rem[t][1] = InitRem(cfg, t)
           \/ lg.ts[t][1] \in {"WORKING", "READY"}>> >>
@@ -346,7 +356,8 @@ C08_AllLens(cfg, lg) ==
   \cup UNION { {Len(lg.cs[c]), Len(lg.cp[c])} : c \in Comps(cfg) }
   \cup { Len(lg.pc[p]) : p \in Wps(cfg) }
 C08_L(cfg, opts, lg) ==
-  << <<"C08.L.aligned", C08_AllLens(cfg, lg) = {lg.time}>> >>
+  << \* (project.time advances by unit_time per step)
+     <<"C08.L.aligned", C08_AllLens(cfg, lg) = {lg.time \div Unit(opts)} /\ lg.time % Unit(opts) = 0>> >>
 
 \* =========================== C10 ===========================================
 C10_A(cfg, opts, ph, s0, s1, b) ==
